@@ -86,6 +86,39 @@ Definition dispatch_dns (kind : string) (args : list string) : string :=
     end
   else BADARGS.
 
+(* census of package packet: function -> (number of for/range loops, what covers it).  Loops of
+   the handler packages that walk tables (lease table, caches, hunt lists) are not tied by count
+   (helper extraction changes them); they are reported in the evidence only. *)
+Definition census_table : list (string * (nat * string)) :=
+  [("newParseOptions", (1%nat, "parse_opts: C08_ndp_options_total, C08_progress_ndp_options"));
+   ("DNSSearchList.unmarshal", (1%nat, "dnssl_loop: C08_progress_dnssl (label validation: parameter lbl_ok)"));
+   ("RecursiveDNSServer.unmarshal", (1%nat, "rdnss_servers (counted loop)"));
+   ("HopByHopExtensionHeader.ParseHopByHopExtensions", (1%nat, "hbh_loop: C08_hopbyhop_total, C08_progress_hopbyhop"));
+   ("DHCP4.ParseOptions", (1%nat, "dhcp_walk false: C08_dhcp_parse_options_total, C08_progress_dhcp_options"));
+   ("DHCP4.validateOptions", (1%nat, "dhcp_walk true: C08_dhcp_is_valid_total, C08_progress_dhcp_options"));
+   ("LLDP.GetPDU", (1%nat, "lldp_get_pdu: C08_lldp_total, C08_progress_lldp"));
+   ("LLDP.FastLog", (1%nat, "not modelled here: VIEWS lldp_walk (C01)"));
+   ("decodeName", (1%nat, "not modelled here: DNS decodeName (C08_decodeName_total)"));
+   ("DNSEntry.decodeRRs", (1%nat, "not modelled here: DNS decodeRRs (C08_decodeRRs_total)"));
+   ("DNSEntry.Copy", (4%nat, "not modelled: map copies of the stored entry (no input indexing)"));
+   ("DNSEntry.FastLog", (3%nat, "not modelled: logging of the stored entry (C20)"));
+   ("NewOptions.Copy", (5%nat, "not modelled: copies of the decoded options (no input indexing)"));
+   ("DHCP4.AppendOptions", (4%nat, "capacity rule encode_dhcp4_into; ENCODE Model/EncodeDHCP.v"));
+   ("EncodeDHCP4", (1%nat, "capacity rule encode_dhcp4_into; ENCODE Model/EncodeDHCP.v"));
+   ("Ether.AppendPayload", (1%nat, "not modelled here: ENCODE (C03)"));
+   ("zeroes", (1%nat, "not modelled here: ENCODE (C03)"));
+   ("Checksum", (2%nat, "not modelled here: Model/Checksum.v (C15)"));
+   ("ICMP4Redirect.Addrs", (1%nat, "not modelled here: VIEWS r4_addrs (C01)"));
+   ("isASCII", (1%nat, "parameter lbl_ok of dnssl_loop"));
+   ("hasUnicodeReplacement", (1%nat, "parameter lbl_ok of dnssl_loop"));
+   ("AddrList.index", (1%nat, "not modelled: hunt list lookup (state, C14)"));
+   ("MACEntry.unlink", (1%nat, "not modelled: TABLES (C05)"));
+   ("MACTable.findMAC", (1%nat, "not modelled: TABLES (C05)"));
+   ("Session.onlineTransition", (1%nat, "not modelled: TABLES (C04)"));
+   ("Session.printHostTable", (2%nat, "not modelled: TABLES (printing)"))].
+Fixpoint census_lookup (k : string) (t : list (string * (nat * string))) : option (nat * string) :=
+  match t with [] => None | (n, v) :: r => if String.eqb n k then Some v else census_lookup k r end.
+
 (* processors: nil / error are not distinguished *)
 Definition obs_ret (r : res unit) : string :=
   match r with Ok _ | Err _ => "ret" | Panic => "panic" | Fuel => "fuel" end.
@@ -184,6 +217,35 @@ Definition dispatch_misc (kind : string) (args : list string) : option string :=
                 | None => Some BADARGS end
     | _ => Some BADARGS end
   else if String.eqb kind "upnploc" then Some (out3 "ret" "-" "-")
+  else if String.eqb kind "ptxt" then
+    (* TXT strings (',' separated hex tokens) handed to parseTXT through ProcessMDNS *)
+    match args with
+    | [_; ts] =>
+        match (fix go (l : list string) : option (list bytes) :=
+                 match l with [] => Some [] | x :: r =>
+                   match bytes_of_tok x, go r with Some a, Some b => Some (a :: b) | _, _ => None end end)
+              (Text.split ","%char ts) with
+        | Some txt => Some (verdict (bind (parse_txt txt) (fun _ => Ok tt)) "-")
+        | None => Some BADARGS end
+    | _ => Some BADARGS end
+  else if String.eqb kind "census" then
+    (* source census (go/ast): a function of package packet that contains loops and is reachable
+       from the processors / decoders; the model knows its loop count and what covers it *)
+    match args with
+    | [fname; loops] =>
+        match census_lookup fname census_table, nat_of_dec loops with
+        | Some (n, _), Some k => Some (out3 (if Nat.eqb n k then "ok" else "loops-differ") "-" "-")
+        | None, _ => Some (out3 "unlisted-loop" "-" "-")
+        | _, None => Some BADARGS end
+    | _ => Some BADARGS end
+  else if String.eqb kind "censusall" then
+    (* every listed function must still be found in the source *)
+    match args with
+    | [names] =>
+        let present := Text.split ","%char names in
+        let missing := filter (fun e => negb (existsb (String.eqb (fst e)) present)) census_table in
+        Some (out3 (match missing with [] => "ok" | e :: _ => "missing:" ++ fst e end) "-" "-")
+    | _ => Some BADARGS end
   else if String.eqb kind "seq" then
     (* a history of frames to one handler: every step returns, whatever state the earlier steps
        left (the state parameters of the processor theorems are universally quantified) *)
